@@ -129,9 +129,12 @@ def run(ctx):
     cases_text = None
     by_sig = {}
     explained = 0
+    known_open = {k["signature"] for k in ctx.known_open}
     for cid, sig, desc in items:
-        if cid in summ.get("failed_cases", {}):
-            explained += 1      # the property predicate already fails on this very case
+        # explained only by a predicate failure on this very case that is NOT a known finding (the model
+        # mirrors the known D08 behaviour, so a D08 hit explains no disagreement)
+        if any(s not in known_open for s in summ.get("failed_cases", {}).get(cid, [])):
+            explained += 1
             continue
         by_sig.setdefault(sig, (cid, desc))
     if by_sig:
